@@ -427,6 +427,7 @@ extern "C" void nsim_client_write (void *p, int size, int site) {
 
 // ------------------------------------------------------------------------------------------
 // Scheduler
+static void end_run (int verdict) __attribute__ ((noreturn));
 static void wake (Fibre *f, int res) {
 	f->st = F_RUNNABLE;
 	f->wake_res = res;
@@ -689,8 +690,9 @@ extern "C" int nsim_spawn (void (*fn) (void *), void *arg) {
 		for (int i = 1; i < g.nfib; i++) if (g.fib[i].st == F_DONE) { slot = i; break; }
 	}
 	if (slot < 0) {
-		fprintf (stderr, "nsim: too many fibres\n");
-		_exit (3);
+		// more simultaneously live fibres than the simulator supports: the run is discarded (counted, not judged)
+		g.limit_hits++;
+		end_run (RV_LIMIT);
 	}
 	Fibre *f = &g.fib[slot];
 	char *stack = (char *) (STACKS_BASE + (uintptr_t) slot * STACK_SIZE);
@@ -1434,6 +1436,11 @@ static void pick_policy () {
 	} else { p.kind = POL_RR; p.q = 9000 + rnd (r, 1000); }
 	if (g.force_policy >= 0) p.kind = g.force_policy;
 	if (nsim_cfg.policy == POL_PRIO) p.kind = POL_PRIO;
+	if (nsim_cfg.policy == 5 && (p.kind == POL_PCT || p.kind == POL_RR)) {     // the family needs a fair scheduler: no priority policies
+		p.kind = (k & 1) ? POL_UNIFORM : POL_STICKY;
+		static const int qs2[] = { 5000, 7000, 8500 };
+		p.q = qs2[k % 3];
+	}
 	// faults: swarm -- a run with no faults at all is one configuration
 	int fmode = rnd (r, 4);
 	p.max_faults = fmode == 0 ? 0 : (fmode == 1 ? 1 : (fmode == 2 ? 3 : 12));
